@@ -360,7 +360,11 @@ func runC20(c *explore.Ctx) {
 	if s != nil {
 		t0 := time.Now()
 		m := newMon(s)
-		run := func(text string, sdl bool) {
+		var run func(text string, sdl bool)
+		run = func(text string, sdl bool) {
+			if !strings.HasPrefix(text, "\ufeff") {
+				run("\ufeff"+text, sdl) // the same source saved with a byte order mark
+			}
 			for _, name := range []string{"named.graphql", ""} {
 				if sdl {
 					c20Run(m, c20Input{Entry: "ParseSchema", Sources: []string{text}, Names: []string{name}})
@@ -420,6 +424,8 @@ func runC20(c *explore.Ctx) {
 			// the same with a source marked built-in (its errors still name the file)
 			c20Run(m, c20Input{Entry: "LoadSchema", Sources: []string{strings.Join(gen.KitBase, "\n"), strings.Join(its, "\n")}, Names: []string{"base.graphql", "items.graphql"}, BuiltIn: []bool{false, true}})
 			c20Run(m, c20Input{Entry: "LoadSchema", Sources: []string{strings.Join(gen.KitBase, "\n"), strings.Join(its, "\n")}, Names: []string{"base.graphql", "items.graphql"}, BuiltIn: []bool{true, false}})
+			// both files saved with a byte order mark
+			c20Run(m, c20Input{Entry: "LoadSchema", Sources: []string{"\ufeff" + strings.Join(gen.KitBase, "\n"), "\ufeff" + strings.Join(its, "\n")}, Names: []string{"base.graphql", "items.graphql"}})
 		})
 		finish(s, m, t0)
 	}
@@ -454,6 +460,7 @@ func runC20(c *explore.Ctx) {
 			if s.States%8 == 0 {
 				c20Run(m, c20Input{Entry: "LoadQuery", Query: d.Doc, Schema: d.Schema})
 				c20Run(m, c20Input{Entry: "ValidateAfterReplace", Query: d.Doc, Names: []string{"query.graphql"}, Schema: d.Schema})
+				c20Run(m, c20Input{Entry: "Validate", Query: "\ufeff" + d.Doc, Names: []string{"query.graphql"}, Schema: d.Schema})
 			}
 		})
 		finish(s, m, t0)
